@@ -170,6 +170,16 @@ class SelectContext(Selector):
         self._key = key
         self._predicate = predicate
         self._raise_on_error = bool(raise_on_error)
+        # for repr (used when this selector is a part of another one)
+        self._selector_repr = "{}, {}".format(
+            repr(key), getattr(predicate, "__name__", repr(predicate))
+        )
+
+    def __repr__(self):
+        if self._raise_on_error is False:
+            return "SelectContext({}, raise_on_error=False)"\
+                    .format(self._selector_repr)
+        return "SelectContext({})".format(self._selector_repr)
 
     def __call__(self, value):
         context = get_context(value)
